@@ -27,7 +27,7 @@ pub static PROP: Prop = Prop {
         "packet equality is the repository's derived PartialEq on NtpPacket",
     ],
     profiles: Profiles::Both,
-    cases: |t| t.pick(300_000, 8_000_000),
+    cases: |t| t.pick(900_000, 9_000_000),
     budget_s: |t| t.pick(40, 420),
     run,
     min_nontrivial: 50,
